@@ -40,7 +40,18 @@ def build_and_run(rep, name, src_name, variants, run_timeout=1800, build_timeout
             ok, log = cxx.build(v.cell, [src], exe, includes=[inc] + list(includes), defines=v.defines, opt=v.opt,
                                 extra=v.extra, timeout=build_timeout)
             if not ok:
-                return v, [["COMPILE-ERROR", log[-3000:]]], time.time() - t0
+                # a failing static_assert table must not hide what the run-time exploration has to say: build again
+                # without the table (explorers that have one honour VERIF_NO_CONSTEXPR) and report both
+                ok2, _ = cxx.build(v.cell, [src], exe, includes=[inc] + list(includes), defines=list(v.defines) + ["VERIF_NO_CONSTEXPR"],
+                                   opt=v.opt, extra=v.extra, timeout=build_timeout) if b"VERIF_NO_CONSTEXPR" in src_blob else (False, "")
+                if not ok2:
+                    return v, [["COMPILE-ERROR", log[-3000:]]], time.time() - t0
+                rc, out = cxx.sh([exe] + v.args, timeout=run_timeout)
+                os.unlink(exe)      # never cached: the digest names the build with the table
+                lines = [["COMPILE-ERROR-CONSTEXPR", log[-3000:]]] + [l.split("\t") for l in out.splitlines() if l]
+                if rc != 0:
+                    lines.append(["RUN-ERROR", "rc=%s" % rc, out[-1500:]])
+                return v, lines, time.time() - t0
         rc, out = cxx.sh([exe] + v.args, timeout=run_timeout)
         lines = [l.split("\t") for l in out.splitlines() if l]
         if rc != 0:
